@@ -71,6 +71,23 @@ def gen(tier, rng):
                     close = (s1 == s2)
                     yield Case('isclose as=%s ad=%s bs=%s bd=%s eps=8' % (fmt(s1), fmt(d1), fmt(s2), fmt(d2)), hs[0], oracle=tf(close), tags=['isclose'] + tags)
                     yield Case('isclose as=%s ad=%s bs=%s bd=%s eps=7' % (fmt(s1), fmt(d1), fmt(s2), fmt(d2)), hs[-1], oracle=tf(close and eq), tags=['isclose'] + tags)
+    # ---- isclose on non-finite elements (seeded change C18-2): the difference of two infinities of one sign is NaN, of opposite
+    # signs infinite, anything with NaN is NaN - none of them is below eps, so every such pair is NOT close (the opt-in
+    # NMTOOLS_ISCLOSE_INF_HANDLING / NAN_HANDLING switches are off by default).  9001 = +inf, 9002 = -inf, 9003 = NaN.
+    specials = [(9001, 9001), (9001, 9002), (9002, 9001), (9002, 9002), (9003, 9003), (9001, 5), (5, 9002), (9003, 5), (5, 9003), (9001, 9003)]
+    for s1 in [s for s in shp if prod(s) <= 6]:
+        n1 = prod(s1); d1 = list(range(1, n1 + 1))
+        for k in (0, n1 - 1):
+            for (u, v) in specials:
+                da = list(d1); db = list(d1); da[k] = u; db[k] = v
+                for hh in hs:
+                    yield Case('isclose as=%s ad=%s bs=%s bd=%s eps=8' % (fmt(s1), fmt(da), fmt(s1), fmt(db)), hh, oracle=tf(False), model=False,
+                               tags=['isclose', 'non-finite'])
+    for (u, v) in specials + [(3, 3), (3, 10), (3, 12)]:
+        for w in ('plain', 'just', 'tuple'):
+            exp = (abs(u - v) < 8) if max(u, v) < 9000 else False
+            for hh in hs:
+                yield Case('isclose_num ad=%d bd=%d eps=8 w=%s' % (u, v, w), hh, oracle=tf(exp), model=False, tags=['isclose', 'num', 'non-finite' if max(u, v) >= 9000 else 'finite'])
     # ---- wrappers on a sample of nd pairs
     small = [s for s in shp if prod(s) <= 6]
     for s1 in small:
